@@ -249,6 +249,17 @@ def rule_linear(ctx):
                 if isinstance(n, ast.Call) and (dotted(n.func) or "").split(".")[-1] in (
                         "bisect", "bisect_left", "bisect_right") and n.args and isinstance(n.args[0], ast.Name):
                     bis.setdefault(n.args[0].id, []).append(n)
+                # `del ids[c]` is a positional removal like `ids.pop(c)` (seed C10_5)
+                if isinstance(n, ast.Delete):
+                    for t in n.targets:
+                        if isinstance(t, ast.Subscript) and isinstance(t.value, ast.Name) and t.value.id in lists \
+                                and not isinstance(t.slice, ast.Slice) and not _is_const_end(t.slice):
+                            shim = ast.Call(func=ast.Attribute(value=t.value, attr="pop", ctx=ast.Load()),
+                                            args=[t.slice], keywords=[])
+                            ast.copy_location(shim, n)
+                            shim.end_lineno, shim.end_col_offset = n.end_lineno, n.end_col_offset
+                            parents[shim] = parents.get(n)
+                            pops.setdefault(t.value.id, []).append(shim)
             for nm in sorted(pops):
                 if nm not in apps and nm not in inserts:
                     continue
@@ -725,4 +736,42 @@ def _is_rewrap(v, name):
     return False
 
 
-RULES = [rule_topo, rule_linear, rule_ssaid, rule_edge]
+def rule_count(ctx):
+    """(seed C10_4; F22) The converters between the recycled-id and the single-assignment format need the
+    number of inputs: it is the id of the first intermediate.  Left out, they infer it from the path as
+    (total ids used) - (steps) + 1, which is the number of inputs only for a *complete* path.  A path handed in
+    by the caller (a `path=` / edge path parameter) need not be complete — partial paths are accepted and
+    auto-completed — so wherever the converted path derives from a parameter, the count is passed
+    explicitly.  Paths produced by a finder of the library are complete ([C05-REMAIN]) and exempt."""
+    r = RuleResult("C10-COUNT", "converters are told the number of inputs for caller-supplied paths", 3)
+    for f in ctx.p.all_funcs(None):
+        calls = [n for n in walk_local(f.node) if isinstance(n, ast.Call)
+                 and (dotted(n.func) or "").split(".")[-1] in ("ssa_to_linear", "linear_to_ssa") and n.args]
+        if not calls:
+            continue
+        fl = ctx.flow(f)
+        for c in calls:
+            name = (dotted(c.func) or "").split(".")[-1]
+            k = ctx.key(f, "C10-COUNT", f"{name}:{len([i for i in r.instances if f.qual in i.construct])}")
+            has_n = len(c.args) >= 2 or any(kw.arg == "N" for kw in c.keywords)
+            if has_n:
+                r.ok(k, C.loc(f, c), "the number of inputs is passed explicitly")
+                continue
+            st = C.enclosing_stmt(f, c)
+            node = fl.cfg.containing(st, f.module.parents)
+            deps = fl.deps(c.args[0], node.id, "may") if node is not None else set()
+            from_param = sorted({d_[1] for d_ in deps if d_[0] == "param" and d_[1] not in ("self", "cls")})
+            from_finder = sorted({d_[1] for d_ in deps if d_[0] == "call" or d_[0] == "attr"})
+            path_params = [p_ for p_ in from_param if "path" in p_ or p_ in ("order", "optimize")]
+            if path_params:
+                r.violation(k, C.loc(f, c), f"`{C.unparse(c, 60)}` converts a path that derives from the caller's `{path_params[0]}` "
+                            f"without the number of inputs: the converter then infers it from the path, which is too small "
+                            f"for an incomplete path (disconnected network, partial order) — new ids collide with inputs, "
+                            f"positions are out of range")
+            else:
+                r.exempt(k, C.loc(f, c), f"the converted path is produced inside the library ({from_finder[:2]}), complete by "
+                         f"[C05-REMAIN]: the inferred count is the number of inputs")
+    return r
+
+
+RULES = [rule_topo, rule_linear, rule_ssaid, rule_edge, rule_count]
